@@ -60,10 +60,14 @@ def strategy(tier):
 
 
 def _plain():
+    return gen.stamps().flatmap(lambda so: _plain_at(*so))
+
+
+def _plain_at(us, off):
     return st.fixed_dictionaries(
         {
-            "us": gen.instants(),
-            "off": gen.offsets(),
+            "us": st.just(us),
+            "off": st.just(off),
             "present": st.sampled_from(["dt", "iso"]),
             "style": st.integers(0, 31),
             "dur": _durations(),
